@@ -3,6 +3,7 @@ import json
 import flow
 import harness as H
 import oracles as O
+import eos_all_oracle as EA
 from props import c01
 
 GAMK = {3: lambda p: (p['geometry'] - 2) / p['geometry'], 5: lambda p: 0.5,
@@ -27,6 +28,11 @@ def units():
                          corr=[dict(gen='Noh2', pfx='noh2', n=4, spec=c01.G, rt=c01.noh2_rt),
                                dict(gen='Noh2Cog', pfx='noh2cog', n=4, spec=c01.G, rt=c01.noh2_rt)],
                          oracle=O.eos_oracle('Noh2', 'noh2', 'gammalaw', spec=c01.G, rt=c01.noh2_rt)))
+    out.append(flow.Unit('rmtv', groups=['rmtv'], props=['props/C03_rmtv.v'],
+                         oracle=lambda rng, tier, reasons: EA.oracle(rng, tier, reasons, kinds=('rmtv',))))
+    out.append(flow.Unit('eos-real-code', groups=[], props=[], oracle=EA.oracle, always_oracle=True,
+                         note='EOS consistency on the real code for both Riemann drivers with different gammas on the two sides (side decided from the contact '
+                              'position), Sedov, EHEP, Mader (cell averages: tolerance 1e-4 on a fine grid) and RMTV'))
     return out
 
 
